@@ -25,7 +25,8 @@ DEF_CLAUSES = {
     "def.wrapped_chain": {"C14"},
     "def.registered_count": {"C18"},
     "def.verdict_ne_lists": {"C18", "C04", "C01", "C02", "C08"},
-    "def.verdict_ne_reference": {"C01", "C02", "C03", "C04", "C08"},
+    "def.verdict_ne_reference": {"C01", "C02", "C03", "C04", "C08", "C16"},
+    "def.culprit_order": {"C16"},
     "def.view": {"C18"},
     "proto.no_expected_step": set(),
 }
@@ -157,6 +158,8 @@ def verdicts_unit(res: CheckResult, hist: dict, expected: Dict[int, dict], ic: A
                     roles = {hist["con"][v[1] - 1]["role"] for v in (want, got)
                              if v[0] == "violation" and 1 <= v[1] <= len(hist["con"])}
                     props = set().union(*[ROLE_PROPS.get(r, set()) for r in roles]) if roles else {"C04"}
+                    if want[0] == "violation" and got[0] == "violation":
+                        props.add("C16")     # another contract than the first falsy one (in the reference order) is blamed
                     if got[0] == "exception":
                         # the call failed with an error of the library (e.g. a missing OLD): every kind of contract
                         # the member carries is concerned
@@ -172,6 +175,12 @@ def verdicts_unit(res: CheckResult, hist: dict, expected: Dict[int, dict], ic: A
                     else:
                         res.note("nonconformance outside {} (clause=def.verdict_ne_reference -> {})".format(
                             res.prop, ",".join(sorted(props))))
+                    return n
+                if got != want and want[0] == "violation" and got[0] == "violation" and res.prop == "C16":
+                    res.violation("def.culprit_order",
+                                  "history {} class {} member {}: the first falsy contract of the lists is {} but the call "
+                                  "blames {} under {}".format(hist["hid"], j, name, want[1], got[1], rt.truth),
+                                  {"signature": "def.culprit_order", "history": hist, "class": j, "member": name})
                     return n
                 if got != want:
                     res.violation("def.verdict_ne_lists",
